@@ -592,7 +592,7 @@ Proof.
   apply ki_log; [discriminate|]. unfold meek_first_prefs.
   apply ki_fold.
   { intros t eb Kt. destruct (crashed t); [exact Kt|]. destruct (erank eb); [apply ki_set_crash; exact Kt|].
-    destruct (floordivv A _ _); [|apply ki_set_crash; exact Kt]. cbv zeta. apply ki_fold; [|exact Kt]. intros u i Ku. apply ki_add_vote. exact Ku. }
+    destruct (divv A _ _); [|apply ki_set_crash; exact Kt]. cbv zeta. apply ki_fold; [|exact Kt]. intros u i Ku. apply ki_add_vote. exact Ku. }
   apply ki_fold.
   { intros t b Kt. destruct (top_rank A b); [apply ki_add_vote|]; exact Kt. }
   split; [|constructor; cbn [ballots eballots quota actions init_kfs set_cands set_quota set_votes s1]; assumption].
